@@ -5,7 +5,7 @@ CloseGuard (R3), clearing resets stored data (R4), releases go through the ownin
 """
 from rulekit import Facts, where, proj_names
 from rulekit.sym import PathEval, show
-from rulekit.query import field_users, guards_of, ordering_of, ORD_RANK, const_int, recv_fields
+from rulekit.query import field_users, guards_of, ordering_of, ORD_RANK, const_int, recv_fields, peel_bool
 
 S = "tracing_subscriber::registry::sharded::"
 REG = S + "Registry"
@@ -104,19 +104,23 @@ def r1(ck, F):
         if not ck.anchor("C05.R1", "Registry::" + fn, b):
             continue
         acts = [bb for bb, t in b.calls() if act_pred(t)]
-        tests = [bb for bb, t in b.calls() if t["callee"].get("method") == test and "SpanStack" in t["callee"]["path"]]
+        tests = [bb for x in [b] + F.closures_of(b) for bb, t in x.calls() if t["callee"].get("method") == test and "SpanStack" in t["callee"]["path"]]
         key = "%s: %s iff SpanStack::%s returned true" % (fn, what, test)
         ok = len(acts) == 1 and len(tests) == 1
         if ok:
-            g, paths = guards_of(b, acts[0])
-            ok = any(txt.startswith(test + "(") and val != 0 for txt, val in g)
-            # and conversely: every return path on which the test was true performs the action
+            # the test may sit in the method itself or behind `opt.map(|s| s.TEST()).unwrap_or(false)`-style wrappers
+            def is_test(term):
+                return show(peel_bool(F, term)).startswith(test + "(")
+            seen_true = False
             for p in PathEval(b).run():
                 if p.end != "return":
                     continue
-                took_true = any(show(c[0]).startswith(test + "(") and c[1] != 0 for c in p.conds)
+                took_true = any(is_test(c[0]) and c[1] != 0 for c in p.conds)
+                seen_true = seen_true or took_true
+                # the action is performed on exactly the paths on which the test was true
                 if took_true != (acts[0] in p.blocks):
                     ok = False
+            ok = ok and seen_true
         if ok:
             ck.ok("C05.R1", key, fn=b.path)
         else:
